@@ -25,7 +25,7 @@ def run(ctx):
     # unit ring_buffer, which is therefore run here as well (restricted to those operations), so that a change inside the ring
     # buffer that breaks this property is reported by this check too
     run_unit(ctx, 'ring_buffer', only_labels=['Bounded::push', 'Bounded::pop', 'Bounded::len', 'Bounded::max_len',
-                                             'Bounded::is_empty', 'Bounded::is_full'])
+                                             'Bounded::is_empty', 'Bounded::is_full', 'Bounded::from_raw_parts', 'Bounded::from', 'Bounded::from_full'])
 
 
 def prepare_replay(rec):
